@@ -95,6 +95,8 @@ def first_diff(a, b, path=""):
                 return d
         return None
     if isinstance(a, float):
+        if a == b or (a != a and b != b):      # equal infinities (a model that has run away) and NaN on both sides are equal
+            return None
         return None if abs(a - b) <= 1e-12 * max(1.0, abs(a)) else "%s: %r vs %r" % (path, a, b)
     return None if a == b else "%s: %r vs %r" % (path, a, b)
 
